@@ -189,8 +189,10 @@ fn validate_map<F: Fam, const N: usize>(d: &mut Drv, mut m: Map<F::K, F::V, N>, 
         // batch lookups on the survivor: two present keys (and one absent) against what get_mut gives
         if seen.len() >= 2 {
             let (a, b) = (seen[0], seen[seen.len() - 1]);
-            let want: Vec<Option<u32>> = [a, b, ABSENT + 1].iter().map(|c| lookup!(F, *c, true, |q| m.get_mut::<QT!()>(q).map(|v| v.payload()))).collect();
-            let (ka, kb, kc) = (F::K::mk(a, 0xFFFE), F::K::mk(b, 0xFFFE), F::K::mk(ABSENT + 1, 0xFFFE));
+            // a class the survivor does not hold (random big states use classes beyond the small universe)
+            let absent = (0..).map(|i| 1_000_000 + i).find(|c| !seen.contains(c)).unwrap();
+            let want: Vec<Option<u32>> = [a, b, absent].iter().map(|c| lookup!(F, *c, true, |q| m.get_mut::<QT!()>(q).map(|v| v.payload()))).collect();
+            let (ka, kb, kc) = (F::K::mk(a, 0xFFFE), F::K::mk(b, 0xFFFE), F::K::mk(absent, 0xFFFE));
             let got: Vec<Option<u32>> = m.get_disjoint_mut::<F::K, 3>([&ka, &kb, &kc]).iter().map(|x| x.as_ref().map(|v| v.payload())).collect();
             if got != want {
                 problems.push(format!("get_disjoint_mut of classes [{}, {}, absent] gives values {:?}; get_mut gives {:?}", a, b, got, want));
